@@ -293,6 +293,64 @@ def behavioural_title(st, title, autotitle=None):
         st.violation("title:module-broken:%s" % type(exc).__name__, "title %r (class name %r): generated module fails: %r" % (title, name, exc), {**case, "class_name": name})
 
 
+def same_title_documents():
+    """Different object schemas sharing ONE title, met in every kind of position pair; plus equal ones (must be ONE class)."""
+    def o(n, title="Point"):
+        return {"type": "object", "title": title, "properties": {"k%d" % n: {"type": "integer"}}}
+
+    slots = {
+        "properties": lambda a, b: {"type": "object", "title": "Root", "properties": {"x": a, "y": b}},
+        "tuple-items": lambda a, b: {"type": "array", "items": [a, b]},
+        "tuple+additionalItems": lambda a, b: {"type": "array", "items": [a], "additionalItems": b},
+        "items+property": lambda a, b: {"type": "object", "title": "Root", "properties": {"x": {"type": "array", "items": a}, "y": b}},
+        "anyOf": lambda a, b: {"anyOf": [a, b]},
+        "oneOf+allOf": lambda a, b: {"oneOf": [a, {"type": "null"}], "allOf": [b]},
+        "patternProperties+additionalProperties": lambda a, b: {"type": "object", "title": "Root", "patternProperties": {"^a": a}, "additionalProperties": b},
+        "dependencies+contains": lambda a, b: {"dependencies": {"d": a}, "contains": b},
+        "not+propertyNames": lambda a, b: {"not": a, "propertyNames": b},
+        "definitions": lambda a, b: {"type": "object", "title": "Root", "properties": {"x": {"$ref": "#/definitions/a"}}, "definitions": {"a": a, "b": b}},
+        "nested": lambda a, b: {"type": "object", "title": "Root", "properties": {"x": {"type": "object", "title": "Point", "properties": {"inner": a, "k9": {"type": "null"}}}, "y": b}},
+    }
+    out = []
+    for sname, f in slots.items():
+        out.append((sname + "/different", f(o(1), o(2)), 2))
+        out.append((sname + "/equal", f(o(1), o(1)), 1))
+        out.append((sname + "/title-casing", f(o(1, "point"), o(2, "Point")), 2))
+    return out
+
+
+def behavioural_same_title(st, label, doc, distinct_points):
+    from statham.serializers.orderer import get_object_classes
+
+    st.add("evaluations")
+    st.add("traces")
+    case = {"document": label, "doc": doc}
+    try:
+        elements = parse(docs.load(doc))
+    except Exception as exc:
+        st.violation("same-title:parse-raised:%s" % type(exc).__name__, "%s: %r" % (label, exc), case)
+        return
+    classes = []
+    for c in get_object_classes(*elements):
+        if not any(c is k for k in classes):
+            classes.append(c)
+    points = [c for c in classes if c.__name__.lower().startswith("point")]
+    names = [c.__name__ for c in classes]
+    extra = 1 if label.startswith("nested") else 0
+    if len(set(names)) != len(names):
+        st.violation("same-title:two-classes-one-name", "%s: distinct classes share a name: %s" % (label, names), case)
+    elif len(points) != distinct_points + extra:
+        st.violation("same-title:class-count", "%s: %d distinct object schemas titled Point, %d classes %s" % (label, distinct_points + extra, len(points), names), case)
+    try:
+        text = serialize_python(*elements)
+        for n in names:
+            if text.count("class %s(" % n) != 1:
+                st.violation("same-title:class-defined-%d-times" % text.count("class %s(" % n), "%s: class %s" % (label, n), {**case, "module": text[:800]})
+        exec(compile(text, "<generated>", "exec"), {"__builtins__": __builtins__})
+    except Exception as exc:
+        st.violation("same-title:module-broken:%s" % type(exc).__name__, "%s: %r" % (label, exc), case)
+
+
 def category_representatives():
     reps = {}
     for cp in range(0x110000):
@@ -359,6 +417,12 @@ def work(item):
             st.add("states")
             st.add("transitions")
             behavioural_title(st, t)
+        for n, (label, doc, k) in enumerate(same_title_documents()):
+            if n % item[2] != item[1]:
+                continue
+            st.add("states")
+            st.add("transitions")
+            behavioural_same_title(st, label, doc, k)
         # the automatic title is a fallback for titles without ASCII alphanumerics: it needs the same care
         fallback = [(t, a) for t in ("é", "&", "日本", " ") for a in sorted(MODULE_NAMES) + [x.lower() for x in sorted(MODULE_NAMES)] + ["1st", "123", "a", "x y", "class", "def"]]
         for n, (t, a) in enumerate(fallback):
